@@ -21,7 +21,7 @@ def showDist (l : Dist) : String :=
 
 /-- `conv <pairs> <z> <carrier> <t> <form>` → model peaks (sorted) TAB spec arrangements at charge z:
     (m/z, raw probability) sorted, TAB total raw probability -/
-def runConvCase (line : String) : String :=
+def runConvCase (line : String) (modelOnly : Bool := false) : String :=
   let T := Gen.table
   match fields line with
   | ["conv", pairs, z, carrier, t, _form] =>
@@ -32,7 +32,7 @@ def runConvCase (line : String) : String :=
         | some peaks => "ok * " ++ showDist (sortPairs (peaks.map (fun q => (q.mz, q.int))))
         | none => "nonfinite"
       let nonneg := ps.all (fun e => 0 ≤ e.2)
-      let spec := if nonneg then
+      let spec := if modelOnly then "unspecified" else if nonneg then
           let arr := arrangements (ps.map (fun e => (isoDist T e.1.1, e.2.toNat)))
           let arr := if ps.isEmpty then [] else arr
           showDist (sortPairs (arr.map (fun a => (chargedMz a.1 z c, a.2))))
